@@ -46,7 +46,7 @@ func genCfgOp(rc *core.RunCtx, srv *server.Server) cfgOp {
 	case 0, 1:
 		c := *srv.GetScheduleConfig()
 		op := cfgOp{name: "schedule"}
-		switch s.Choose(9, "cfg.sched") {
+		switch s.Choose(11, "cfg.sched") {
 		case 0:
 			c.LeaderScheduleLimit = uint64(1 + s.Choose(64, "v"))
 		case 1:
@@ -72,6 +72,19 @@ func genCfgOp(rc *core.RunCtx, srv *server.Server) cfgOp {
 		case 8:
 			c.Schedulers = append(append(config.SchedulerConfigs{}, c.Schedulers...), config.SchedulerConfig{Type: fmt.Sprintf("no-such-scheduler-%d", s.Choose(3, "v"))})
 			op.invalid = "unregistered scheduler type"
+		case 9, 10:
+			// a default scheduler disabled / enabled again, or given arguments (valid; must survive a reload as accepted)
+			c.Schedulers = append(config.SchedulerConfigs{}, c.Schedulers...)
+			if len(c.Schedulers) > 0 {
+				i := s.Choose(len(c.Schedulers), "v")
+				sc := c.Schedulers[i]
+				if s.Choose(3, "v2") == 0 {
+					sc.Args = []string{"sim"}
+				} else {
+					sc.Disable = !sc.Disable
+				}
+				c.Schedulers[i] = sc
+			}
 		}
 		op.name = "schedule " + op.invalid
 		op.apply = func(srv *server.Server) error { return srv.SetScheduleConfig(c) }
@@ -79,7 +92,7 @@ func genCfgOp(rc *core.RunCtx, srv *server.Server) cfgOp {
 	case 2:
 		c := *srv.GetReplicationConfig()
 		op := cfgOp{name: "replication"}
-		switch s.Choose(4, "cfg.repl") {
+		switch s.Choose(5, "cfg.repl") {
 		case 0:
 			c.MaxReplicas = uint64(1 + s.Choose(5, "v"))
 		case 1:
@@ -92,6 +105,10 @@ func genCfgOp(rc *core.RunCtx, srv *server.Server) cfgOp {
 			c.LocationLabels = []string{"zone", "rack"}
 			c.IsolationLevel = "host"
 			op.invalid = "isolation level that is not a location label"
+		case 4:
+			c.LocationLabels = nil
+			c.IsolationLevel = []string{"zone", "rack"}[s.Choose(2, "v")]
+			op.invalid = "isolation level without any location label"
 		}
 		op.name = "replication " + op.invalid
 		op.apply = func(srv *server.Server) error { return srv.SetReplicationConfig(c) }
